@@ -581,6 +581,41 @@ pub fn vp9_frame(key: bool, tag: u32, len: usize) -> Vec<u8> {
 // Generic "video frame for codec"
 // ---------------------------------------------------------------------------------------------
 
+/// Like `video_frame`, but the carried configuration differs per `variant` (different SPS/PPS/VPS
+/// bytes, AV1 level, VP9 profile), so that "which keyframe did the config come from" is visible.
+pub fn video_frame_variant(codec: VCodec, key: bool, with_cfg: bool, tag: u32, len: usize, variant: u8) -> (Vec<u8>, Vec<u8>) {
+    if variant == 0 || !with_cfg {
+        return video_frame(codec, key, with_cfg, tag, len);
+    }
+    match codec {
+        VCodec::H264 => {
+            let mut s = vec![if key { 0x65 } else { 0x41 }];
+            s.extend(body(tag, len.max(1)));
+            let u = vec![h264_sps(variant), h264_pps(variant), s];
+            (annexb(&u, tag % 2 == 1), length_prefixed(&u))
+        }
+        VCodec::H265 => {
+            let mut s = vec![if key { 0x26 } else { 0x02 }, 0x01];
+            s.extend(body(tag, len.max(1)));
+            let u = vec![h265_vps(variant), h265_sps(variant), h265_pps(variant), s];
+            (annexb(&u, tag % 2 == 1), length_prefixed(&u))
+        }
+        VCodec::Av1 => {
+            let mut o = obu(2, false, true, &[]);
+            o.extend(av1_seq_obu(&SeqHdr { level: 9 + variant, ..SeqHdr::default() }.normalised()));
+            let mut p = vec![if key { 0x10 } else { 0x30 }];
+            p.extend(body(tag, len.max(1)));
+            o.extend(obu(6, false, true, &p));
+            (o.clone(), o)
+        }
+        VCodec::Vp9 => {
+            let mut o = Vp9Hdr { profile: variant % 4, ..Default::default() }.header(key);
+            o.extend(body(tag, len.max(1)));
+            (o.clone(), o)
+        }
+    }
+}
+
 /// (bytes to submit, bytes the file must hold for that sample)
 pub fn video_frame(codec: VCodec, key: bool, with_cfg: bool, tag: u32, len: usize) -> (Vec<u8>, Vec<u8>) {
     match codec {
